@@ -122,7 +122,11 @@ def gen(rng: Any, prop: str, tier: str) -> dict[str, Any]:
         if kind == "typed_select":
             cols = rng.sample([n for n, _ in TYPED_COLS], rng.randint(1, 6))
             form = rng.random()
-            if form < 0.6:
+            if form < 0.12:
+                # repeated column names (also of different types): values must stay with their position
+                a, b = cols[0], rng.choice([n for n, _ in TYPED_COLS])
+                q = f"SELECT ID, {a} AS X, {b} AS X, ID + 1 AS ID FROM TT_{cid} ORDER BY 1"
+            elif form < 0.6:
                 q = f"SELECT {', '.join(cols)} FROM TT_{cid} ORDER BY ID"
             elif form < 0.8:
                 q = f"SELECT * FROM TT_{cid} WHERE ID >= {10 + rng.randint(0, 9)} ORDER BY ID"
@@ -139,7 +143,7 @@ def gen(rng: Any, prop: str, tier: str) -> dict[str, Any]:
                 rows = ", ".join(f"({fresh()}, 'v{fresh()}')" for _ in range(rng.choice([1, 2, 3])))
                 ops.append({"s": cid, "k": "query", "sql": f"INSERT INTO {t} VALUES {rows}", "kind": "dml"})
             elif kind == "select":
-                ops.append({"s": cid, "k": "query", "sql": f"SELECT A, B FROM {t} ORDER BY A", "kind": "select"})
+                ops.append({"s": cid, "k": "query", "sql": rng.choice([f"SELECT A, B FROM {t} ORDER BY A", f"SELECT A, B FROM {t} ORDER BY A", f"SELECT A, A + 1 AS A, B AS A FROM {t} ORDER BY 1"]), "kind": "select"})
             elif kind == "update":
                 ops.append({"s": cid, "k": "query", "sql": f"UPDATE {t} SET B = 'u{fresh()}' WHERE A > {uid[0] - rng.randint(1, 8)}", "kind": "dml"})
             else:
